@@ -1,14 +1,15 @@
 import NgVerif.Proofs.Fault
 import NgVerif.Proofs.Coords
+import NgVerif.Proofs.CsegPrefix
 import NgVerif.Model.Http
 /-
   C18 — I/O failures and interrupted writes never yield silently wrong data.
   The store of one chunk as a program of I/O primitives under an injected failure or an
   interruption (`Fault.storeRun`), the reader on what is left (`Fault.readChunk`), the shard file
   while `Shard.close` runs, and the HTTP readers' handling of failing requests.
-  Laws of externals used as HYPOTHESES (validated by the harness, not proved): a non-empty
-  strict prefix of a gzip stream is refused by gzip (class `gzTorn`); codecs other than raw
-  refuse strict prefixes of their own output (hypothesis `hprefix`).
+  Law of an external used as a modelling assumption (validated by the harness, not proved): a
+  non-empty strict prefix of a gzip stream is refused by gzip (class `gzTorn`). The codec
+  hypothesis `hprefix` is proved for raw and for compressed_segmentation; JPEG is an external.
 -/
 namespace NgVerif.Props.C18
 open NgVerif NgVerif.Fault
@@ -29,21 +30,20 @@ theorem failure_is_reported (gz : Bool) (glen : Nat) (old : Disk) (payload : Byt
 
 /-- MAIN (any codec): after an injected failure or an interruption at ANY primitive with ANY
     number of stream bytes written, a reader of that chunk gets what it got before the store,
-    or exactly the new array, or an error — never another array. `hprefix`: the decoder refuses
-    every strict prefix of the encoder's output (proved for raw below). -/
+    or exactly the new array, or an error — never another array. `hprefix`: the decoder either
+    refuses a prefix of the encoder's output or decodes it to the encoded array (proved below for
+    raw and for compressed_segmentation). -/
 theorem interrupted_store_never_wrong (dec : Bytes → Option (List Nat)) (payload : Bytes)
     (vals : List Nat) (hdec : dec payload = some vals)
-    (hprefix : ∀ j, j < payload.length → dec (payload.take j) = none)
+    (hprefix : ∀ j, dec (payload.take j) = none ∨ dec (payload.take j) = some vals)
     (gz : Bool) (glen : Nat) (old : Disk) (ev : Event) :
     readChunk dec (storeRun gz glen old payload ev).2 = readChunk dec old ∨
     readChunk dec (storeRun gz glen old payload ev).2 = .ok vals ∨
     ∃ e, readChunk dec (storeRun gz glen old payload ev).2 = .error e := by
   have hempty : dec [] = some vals ∨ dec [] = none := by
-    by_cases h : 0 < payload.length
-    · right; have := hprefix 0 h; simpa using this
-    · left
-      have : payload = [] := List.eq_nil_of_length_eq_zero (by omega)
-      rw [← this]; exact hdec
+    have := hprefix 0
+    simp only [List.take_zero] at this
+    exact this.symm
   have hpart : ∀ j, readChunk dec (partialFile gz glen payload j) = .ok vals ∨
       ∃ e, readChunk dec (partialFile gz glen payload j) = .error e := by
     intro j
@@ -62,11 +62,9 @@ theorem interrupted_store_never_wrong (dec : Bytes → Option (List Nat)) (paylo
         · rw [if_neg h1]; left; simp [readChunk, fetch, hdec]
     | false =>
       simp only [Bool.false_eq_true, if_false]
-      by_cases h : j < payload.length
-      · right; exact ⟨.format, by simp [readChunk, fetch, hprefix j h]⟩
-      · left
-        have : payload.take j = payload := List.take_of_length_le (by omega)
-        simp [readChunk, fetch, this, hdec]
+      rcases hprefix j with h | h
+      · right; exact ⟨.format, by simp [readChunk, fetch, h]⟩
+      · left; simp [readChunk, fetch, h]
   cases ev with
   | none =>
     right; left
@@ -116,8 +114,34 @@ theorem interrupted_raw_store_never_wrong (itemsize : Nat) (hk : 0 < itemsize) (
   intro dec d
   apply interrupted_store_never_wrong dec (Raw.encode itemsize vals) vals
   · simp [dec, Raw.decode_encode itemsize hk vals hv, Except.toOption]
-  · intro j hj
-    simp [dec, (raw_refuses_strict_prefixes itemsize hk vals hv j hj).1, Except.toOption]
+  · intro j
+    by_cases hj : j < (Raw.encode itemsize vals).length
+    · left; simp [dec, (raw_refuses_strict_prefixes itemsize hk vals hv j hj).1, Except.toOption]
+    · right
+      rw [List.take_of_length_le (by omega)]
+      simp [dec, Raw.decode_encode itemsize hk vals hv, Except.toOption]
+
+/-- compressed_segmentation chunks, stated outright: whatever prefix of the encoder's output an
+    interrupted or failed store leaves behind, the package's own decoder either refuses it or returns
+    exactly the encoded array; so the reader gets the old chunk, the new chunk, or an error. -/
+theorem interrupted_cseg_store_never_wrong (itemsize : Nat) (hi : itemsize = 4 ∨ itemsize = 8)
+    (s : Cseg.Shape) (bk : Cseg.Blk3) (d : List Nat) (hbx : 0 < bk.bx) (hby : 0 < bk.by') (hbz : 0 < bk.bz)
+    (hvals : ∀ v ∈ d, v < 2 ^ (8 * itemsize)) (hd : d.length = s.c * s.z * s.y * s.x)
+    (file : Bytes) (h : Cseg.encode itemsize s bk d = some file)
+    (gz : Bool) (glen : Nat) (old : Disk) (ev : Event) :
+    let dec := fun b => (Cseg.implDecode itemsize s bk b).toOption
+    let dk := (storeRun gz glen old file ev).2
+    readChunk dec dk = readChunk dec old ∨ readChunk dec dk = .ok d ∨ ∃ e, readChunk dec dk = .error e := by
+  intro dec dk
+  apply interrupted_store_never_wrong dec file d
+  · simp [dec, Cseg.implDecode_encode itemsize hi s bk d hbx hby hbz hvals hd file h, Except.toOption]
+  · intro j
+    cases hr : Cseg.implDecode itemsize s bk (file.take j) with
+    | error e => left; simp [dec, hr, Except.toOption]
+    | ok a =>
+      right
+      have := Cseg.implDecode_prefix itemsize hi s bk d hbx hby hbz hvals hd file h j a hr
+      simp [dec, hr, Except.toOption, this]
 
 /-- A shard file interrupted at ANY point before the final index write (zeroed placeholder
     followed by any prefix of data and minishard indices) lists no chunk: every chunk of that
